@@ -968,6 +968,11 @@ package rueidis
 //@   modifies *
 //@   assert [C23 a-replica-marked-down-is-not-eligible] at append: !ok && len(arg1) == 1 && arg1[0] == replica
 
+// the sentinel event handler follows a +switch-master / +reboot event only when the event names THIS client's master set
+//@ func sentinelClient.listWatch$2$1 #c23
+//@   modifies *
+//@   assert [C23 a-switch-master-event-is-followed-only-for-this-clients-master-set] at switchTargetRetry#1: len(returned(SplitN)) >= 5 && returned(SplitN)[0] == c.sOpt.Sentinel.MasterSet && arg2 == true
+//@   assert [C23 a-reboot-event-is-followed-only-for-this-clients-master] at switchTargetRetry#2: len(returned(SplitN)) >= 4 && returned(SplitN)[0] == "master" && returned(SplitN)[1] == c.sOpt.Sentinel.MasterSet && arg2 == true
 //@ func sentinelClient.pick #c23
 //@   modifies *
 //@   assert [C23 replica-connection-only-for-replica-clients-or-opted-in-commands] at Load#1: arg0 == &c.rConn && c.replica
